@@ -31,6 +31,15 @@ def delta(p, kind, k, dims):
         delta(p, 'fixed_var', k, dims); delta(p, 'rec_var', k, dims); delta(p, 'att_large', k, dims)
     elif kind == 'att_large_rec':
         delta(p, 'att_large', k, dims); delta(p, 'rec_var', k, dims)
+    elif kind == 'copy_att':
+        # the large attribute arrives through ncmpi_copy_att from a second file that is open in data mode while the target is in define mode
+        from engine.runner import hexname
+        nm = 'L%d' % k; vals = list(range(150)); c = p.case
+        c.op('*', 'create', f=1, path='src%d.nc' % k, fmt=1)
+        c.op('*', 'put_att', f=1, v=-1, name=hexname(nm), xtype='int', n=len(vals), vals=vals); c.op('*', 'enddef', f=1)
+        rcs, st = p.m.apply(dict(op='put_att', v=-1, name=nm, xtype=D.NC_INT, vals=vals)); assert 0 in rcs; p.m = st
+        p.rc_lines.append((c.op('*', 'copy_att', f=1, v=-1, name=hexname(nm), f2=0, v2=-1), 0))
+        c.op('*', 'close', f=1)
     elif kind == 'realign': pass
     else: raise ValueError(kind)
 
@@ -40,7 +49,7 @@ def enddef_op(kind, k):
     return dict(op='enddef')
 
 
-DELTAS = ['att_small', 'att_large', 'fixed_var', 'rec_var', 'both', 'realign', 'att_large_rec']
+DELTAS = ['att_small', 'att_large', 'fixed_var', 'rec_var', 'both', 'copy_att', 'realign', 'att_large_rec']
 
 
 def gen(fmts, nps, units, nrecs_list, bases, aligns, reps=(1, 2), pres=('coll',), fill=False):
@@ -85,7 +94,7 @@ def gen(fmts, nps, units, nrecs_list, bases, aligns, reps=(1, 2), pres=('coll',)
 
 def gen_abort(fmts, nps):
     progs = []
-    for fmt, bname, dk, np, mode in itertools.product(fmts, ['mix', 'rec1odd', 'fixed'], DELTAS[:5], nps, ['coll', 'indep']):
+    for fmt, bname, dk, np, mode in itertools.product(fmts, ['mix', 'rec1odd', 'fixed'], DELTAS[:6], nps, ['coll', 'indep']):
         dims, vars_ = BASES[bname]
         p = Prog('AB-f%d-%s-%s-np%d-%s' % (fmt, bname, dk, np, mode), np, fmt)
         for n, l in dims: p.do(dict(op='def_dim', name=n, len=l))
@@ -152,7 +161,7 @@ def main(tier=None):
             except cdf.CDFError: pass
     ck.cov['distinct_nontrivial'] = len(ck.outcomes)
     ck.cov['rule'] = ('base layouts {fixed only, one odd-sized record variable, two record variables, fixed/record mixes} x records {0,1,3} x alignment {default,tight} x deltas {small attribute, large attribute (header outgrows extent), '
-                      'new fixed variable, new record variable, all three, larger minfree/alignment via ncmpi__enddef} applied once and twice x formats x np 1-4 x PNETCDF_VERIF_MOVE_UNIT {unset,8,24,64} x {no fill, dataset fill mode (added variables are filled at enddef)} x {redef from collective mode, redef entered directly from independent mode after the higher ranks appended records (per-process record counts differ)}; every existing element is read back '
+                      'new fixed variable, new record variable, all three, a large attribute copied with copy_att from a second file open in data mode, larger minfree/alignment via ncmpi__enddef} applied once and twice x formats x np 1-4 x PNETCDF_VERIF_MOVE_UNIT {unset,8,24,64} x {no fill, dataset fill mode (added variables are filled at enddef)} x {redef from collective mode, redef entered directly from independent mode after the higher ranks appended records (per-process record counts differ)}; every existing element is read back '
                       'through the API after each enddef and after reopen, and the decoded file is compared with the model; abort after redef must leave the file byte-identical, abort of a new file must remove it; '
                       'distinct_nontrivial = distinct variable-offset layouts reached')
     ck.sample(progs[0].case.text()[:1500]); ck.sample(progs[len(progs) // 3].case.text()[:1500])
